@@ -23,7 +23,7 @@
    the honest party's lock view is the environment's, no second preimage of a hash the honest party can
    open, no second key with the hash160 of a pk_h key. *)
 From Verif Require Import Exec Ser Ast Types TypeCheck SatSpec Sat ExecLemmas TheoremA SatProofs
-  CompleteProofs CompleteThresh CompleteNonMall HasSigProofs SignedLemmas DenotSpec DenotLemmas
+  CompleteProofs CompleteThresh CompleteNonMall HasSigProofs SignedLemmas DenotSpec DenotLemmas DenotTable
   NonMallUnique NonMallUniqueThresh NonMallUniqueMulti NonMallUniqueMain.
 From Coq Require Import Lia Permutation.
 
@@ -709,5 +709,282 @@ Section Script.
       + rewrite (j_imp _ _ _ _ _ _ HJ Hi Bv Bv_below) in Hin. exact Hin.
       + rewrite (j_sig _ _ _ _ _ _ HJ Hi Bv Bv_below (Bv_nosigs K Hn)) in Hin. exact Hin.
     - intros l bs Hl Hf Hv w Hw Ht. exact (j_stk _ _ _ _ _ _ HJ l bs Hl Hf Bv Bv_below (Bv_vis K l Hv) w (Hemb w Hw Ht)).
+  Qed.
+
+  (* ================= thresh ================= *)
+  Variable rhs : bool.
+  Notation usd := (usd ke se rhs).
+  Definition SatR (m : ms) : wset := fun w => exists v, R e ke m true w v.
+  Definition DsatR (m : ms) : wset := fun w => exists v, R e ke m false w v.
+
+  Definition sent := (list key * satn * wset)%type.
+  Definition sK (en : sent) : list key := fst (fst en).
+  Definition sC (en : sent) : satn := snd (fst en).
+  Definition sT (en : sent) : wset := snd en.
+  Fixpoint isprod (Ts : list wset) : wset := match Ts with [] => ssingle [] | T :: r => sprod T (isprod r) end.
+
+  Lemma JS_fold (Ls : list sent) : Forall (fun en => cok (sK en) (sC en) /\ JS (sK en) (sC en) (sT en)) Ls -> pdisj (map sK Ls) ->
+    forall Kacc acc Tacc, cok Kacc acc -> JS Kacc acc Tacc -> Forall (disj Kacc) (map sK Ls) ->
+    cok (Kacc ++ concat (map sK Ls)) (fold_left concatenate_rev (map sC Ls) acc) /\
+    JS (Kacc ++ concat (map sK Ls)) (fold_left concatenate_rev (map sC Ls) acc) (sprod Tacc (isprod (map sT Ls))).
+  Proof.
+    induction Ls as [|en r IH]; intros HJ HP Kacc acc Tacc Cacc Hacc HD; cbn [map fold_left concat isprod].
+    - split; [apply (cok_weaken Kacc); [apply incl_app_left | exact Cacc]|].
+      apply (JS_weaken Kacc); [apply incl_app_left|]. apply (JS_sub _ _ Tacc); [|exact Hacc].
+      intros w [wa [wb [-> [Ha Hb]]]]. unfold ssingle in Hb. subst wb. rewrite app_nil_r. exact Ha.
+    - inversion HJ as [|? ? [Ce He] Hr]; subst. destruct HP as [HP1 HP2]. inversion HD as [|? ? Hd1 Hd2]; subst.
+      pose proof (JS_concat Kacc (sK en) acc (sC en) Tacc (sT en) Hd1 Cacc Ce Hacc He) as Hc.
+      pose proof (cok_concat Kacc (sK en) acc (sC en) Cacc Ce) as Cc.
+      assert (HD' : Forall (disj (Kacc ++ sK en)) (map sK r)).
+      { rewrite Forall_forall in *. intros K' HK'. apply disj_app_l; [apply Hd2, HK' | apply HP1, HK']. }
+      destruct (IH Hr HP2 _ _ _ Cc Hc HD') as [G1 G2].
+      assert (Hi : incl ((Kacc ++ sK en) ++ concat (map sK r)) (Kacc ++ sK en ++ concat (map sK r))) by (rewrite <- app_assoc; apply incl_refl).
+      split; [exact (cok_weaken _ _ _ Hi G1)|]. apply (JS_weaken _ _ _ _ Hi). revert G2. apply JS_sub.
+      intros w [wa [wb [-> [Ha [wb1 [wb2 [-> [Hb1 Hb2]]]]]]]]. exists (wa ++ wb1), wb2. split; [apply app_assoc|]. split; [exists wa, wb1; auto | exact Hb2].
+  Qed.
+  Lemma cok_trivial : cok [] TRIVIAL.
+  Proof. split; [apply held_const|]. split; [apply P_trivial|]. intros l k Hl Hk. cbn in Hl. inversion Hl; subst. destruct Hk. Qed.
+  Lemma JS_flatten (Ls : list sent) : Forall (fun en => cok (sK en) (sC en) /\ JS (sK en) (sC en) (sT en)) Ls -> pdisj (map sK Ls) ->
+    cok (concat (map sK Ls)) (flatten_rev (map sC Ls)) /\ JS (concat (map sK Ls)) (flatten_rev (map sC Ls)) (isprod (map sT Ls)).
+  Proof.
+    intros HJ HP. unfold flatten_rev.
+    assert (HD : Forall (disj []) (map sK Ls)) by (apply Forall_forall; intros K' _ k []).
+    assert (J0 : JS [] TRIVIAL (ssingle [])) by (apply (JS_const [] [] []); [reflexivity | intros w Hw; exact Hw]).
+    destruct (JS_fold Ls HJ HP [] TRIVIAL _ cok_trivial J0 HD) as [G1 G2]. cbn [app] in G1, G2. split; [exact G1|].
+    revert G2. apply JS_sub. intros w Hw. exists [], w. split; [reflexivity|]. split; [reflexivity | exact Hw].
+  Qed.
+
+  Fixpoint mkLs (xs : list ms) (M : list bool) : list sent :=
+    match xs, M with
+    | x :: r, b :: m => (ukeys x, (if b then snd (usd x) else fst (usd x)), (if b then SatR x else DsatR x)) :: mkLs r m
+    | _, _ => []
+    end.
+  Lemma mkLs_K xs : forall M, length M = length xs -> map sK (mkLs xs M) = map ukeys xs.
+  Proof.
+    induction xs as [|x r IH]; intros [|b m] Hl; cbn [length] in Hl; try lia; [reflexivity|].
+    cbn [mkLs map]. rewrite IH by lia. reflexivity.
+  Qed.
+  Lemma mkLs_C xs : forall M, map sC (mkLs xs M) = map eC (mkL ke se rhs xs M).
+  Proof. induction xs as [|x r IH]; intros [|b m]; try reflexivity. cbn [mkLs mkL map]. rewrite IH. reflexivity. Qed.
+
+  Definition childS (x : ms) : Prop :=
+    cok (ukeys x) (fst (usd x)) /\ cok (ukeys x) (snd (usd x)) /\
+    JS (ukeys x) (fst (usd x)) (DsatR x) /\ JS (ukeys x) (snd (usd x)) (SatR x).
+  Lemma mkLs_ok xs : Forall childS xs -> forall M, Forall (fun en => cok (sK en) (sC en) /\ JS (sK en) (sC en) (sT en)) (mkLs xs M).
+  Proof.
+    induction 1 as [|x r [C1 [C2 [J1 J2]]] Hr IH]; intros [|b m]; cbn [mkLs]; try constructor; [|apply IH].
+    unfold sK, sC, sT. cbn [fst snd]. destruct b; split; assumption.
+  Qed.
+  Lemma JS_mask xs M : length M = length xs -> Forall childS xs -> pdisj (map ukeys xs) ->
+    cok (flat_map ukeys xs) (flatten_rev (map eC (mkL ke se rhs xs M))) /\
+    JS (flat_map ukeys xs) (flatten_rev (map eC (mkL ke se rhs xs M))) (isprod (map sT (mkLs xs M))).
+  Proof.
+    intros Hl HJ HP. rewrite flat_map_concat_map, <- (mkLs_K xs M Hl), <- mkLs_C.
+    apply JS_flatten; [apply mkLs_ok, HJ | rewrite (mkLs_K xs M Hl); exact HP].
+  Qed.
+
+  (* ---- the relation's thresh clause under a selection mask ---- *)
+  Notation PR := (fun x => R e ke x).
+  Definition satdead (x : ms) : Prop := forall w, okw w -> SatR x w -> False.
+  Lemma rthr_empty xs : forall M j w, Forall2 (fun x (b : bool) => b = false -> satdead x) xs M ->
+    (ctrue M < j)%nat -> okw w -> Rthr PR xs w j -> False.
+  Proof.
+    induction xs as [|x r IH]; intros M j w HF Hj Hw H; inversion HF as [|? b ? m Hb Hr]; subst.
+    - destruct H as [_ ->]. cbn in Hj. lia.
+    - apply Rthr_cons in H. destruct H as [wx [wr [-> H]]]. destruct (okw_app _ _ Hw) as [Hwx Hwr]. cbn [ctrue] in Hj.
+      destruct H as [[j' [-> [H1 H2]]]|[H1 H2]].
+      + destruct b.
+        * apply (IH m j' wr Hr); [lia | exact Hwr | exact H2].
+        * apply (Hb eq_refl wx Hwx). exists [1%N]. exact H1.
+      + apply (IH m j wr Hr); [destruct b; lia | exact Hwr | exact H2].
+  Qed.
+  Lemma rthr_masked xs : forall M w, Forall2 (fun x (b : bool) => b = false -> satdead x) xs M ->
+    okw w -> Rthr PR xs w (ctrue M) -> isprod (map sT (mkLs xs M)) w.
+  Proof.
+    induction xs as [|x r IH]; intros M w HF Hw H; inversion HF as [|? b ? m Hb Hr]; subst.
+    - destruct H as [-> _]. reflexivity.
+    - apply Rthr_cons in H. destruct H as [wx [wr [-> H]]]. destruct (okw_app _ _ Hw) as [Hwx Hwr].
+      cbn [mkLs map isprod]. unfold sT at 1. cbn [snd]. cbn [ctrue] in H.
+      destruct H as [[j' [Ej [H1 H2]]]|[H1 H2]].
+      + destruct b.
+        * exists wx, wr. split; [reflexivity|]. split; [exists [1%N]; exact H1|]. apply IH; [exact Hr | exact Hwr|].
+          assert (j' = ctrue m) by lia. subst j'. exact H2.
+        * exfalso. apply (Hb eq_refl wx Hwx). exists [1%N]. exact H1.
+      + destruct b.
+        * exfalso. apply (rthr_empty r m (S (ctrue m)) wr Hr ltac:(lia) Hwr H2).
+        * exists wx, wr. split; [reflexivity|]. split; [exists []; exact H1|]. apply IH; [exact Hr | exact Hwr | exact H2].
+  Qed.
+  Lemma ctrue_repeat_false n : ctrue (repeat false n) = 0%nat.
+  Proof. induction n as [|n IH]; [reflexivity|]. cbn [repeat ctrue]. rewrite IH. reflexivity. Qed.
+  Lemma nth_repeat {X} (x d : X) n i : (i < n)%nat -> nth i (repeat x n) d = x.
+  Proof. revert i. induction n as [|n IH]; intros i Hi; [lia|]. destruct i; [reflexivity|]. cbn [repeat nth]. apply IH. lia. Qed.
+
+  (* all children dissatisfied: every other count needs a satisfied child *)
+  Lemma JS_thresh_dis xs : Forall childS xs -> pdisj (map ukeys xs) -> Forall clean (map fst (map usd xs)) ->
+    Forall (fun x => novis (ukeys x) -> satdead x) xs ->
+    JS (flat_map ukeys xs) (flatten_rev (map fst (map usd xs))) (fun w => exists j, Rthr PR xs w j).
+  Proof.
+    intros HJ HP Hc Hs. destruct (JS_mask xs (repeat false (length xs)) (repeat_length _ _) HJ HP) as [Ck G].
+    rewrite (mkL_C_const ke se rhs false) in G, Ck.
+    assert (Cl : clean (flatten_rev (map fst (map usd xs)))) by (unfold flatten_rev; apply fold_clean; [exact Hc | apply clean_trivial]).
+    assert (HF : novis (flat_map ukeys xs) -> Forall2 (fun x (b : bool) => b = false -> satdead x) xs (repeat false (length xs))).
+    { intros Hn. apply (Forall2_of_nth _ MTrue false); [rewrite repeat_length; reflexivity|]. intros i Hi _.
+      rewrite Forall_forall in Hs. apply (Hs _ (nth_In xs MTrue Hi)). exact (novis_incl _ _ (tu_keys_in xs i Hi) Hn). }
+    constructor.
+    - intros Hi. destruct (clean_not_ios _ Cl Hi).
+    - intros l bs Hl Hf Hv w Hw [j H].
+      assert (Hn : novis (flat_map ukeys xs)) by exact (vis_nosig_novis _ l Hv (clean_nosig_stack _ l Cl (proj1 (proj2 Ck)) Hl)).
+      destruct j as [|j'].
+      + apply (js_stk _ _ _ G l bs Hl Hf Hv w Hw). apply rthr_masked; [exact (HF Hn) | exact Hw|]. rewrite ctrue_repeat_false. exact H.
+      + exfalso. apply (rthr_empty xs _ (S j') w (HF Hn)); [rewrite ctrue_repeat_false; lia | exact Hw | exact H].
+  Qed.
+
+  Lemma JS_sub_okw K c (T T' : wset) : (forall w, okw w -> T' w -> T w) -> JS K c T -> JS K c T'.
+  Proof.
+    intros Hs H. constructor.
+    - intros Hi Hn w Hw Ht. exact (js_ios _ _ _ H Hi Hn w Hw (Hs w Hw Ht)).
+    - intros l bs Hl Hf Hv w Hw Ht. exact (js_stk _ _ _ H l bs Hl Hf Hv w Hw (Hs w Hw Ht)).
+  Qed.
+
+  (* all children satisfied *)
+  Lemma JS_thresh_all xs : Forall childS xs -> pdisj (map ukeys xs) ->
+    JS (flat_map ukeys xs) (flatten_rev (map snd (map usd xs))) (fun w => Rthr PR xs w (length xs)).
+  Proof.
+    intros HJ HP. destruct (JS_mask xs (repeat true (length xs)) (repeat_length _ _) HJ HP) as [_ G].
+    rewrite (mkL_C_const ke se rhs true) in G. revert G. apply JS_sub_okw.
+    intros w Hw H. apply rthr_masked; [|exact Hw | rewrite ctrue_repeat_true; exact H].
+    apply (Forall2_of_nth _ MTrue false); [rewrite repeat_length; reflexivity|]. intros i Hi E.
+    rewrite (nth_repeat true false (length xs) i Hi) in E. discriminate.
+  Qed.
+
+  (* k < n *)
+  Lemma JS_thresh_nm xs k : (k < length xs)%nat -> Forall childS xs -> Forall (childJ ke A se f rhs) xs ->
+    pdisj (map ukeys xs) -> Forall clean (map fst (map usd xs)) ->
+    JS (flat_map ukeys xs) (thresh_nonmall se k (map fst (map usd xs)) (map snd (map usd xs))) (fun w => Rthr PR xs w k).
+  Proof.
+    intros Hk HS HJ HP Hc. rewrite thresh_nonmall_eq.
+    set (dissats := map fst (map usd xs)). set (sats := map snd (map usd xs)). set (order := nm_order se dissats sats).
+    assert (Hkth : (nth (k - 1) order 0 < length xs)%nat).
+    { apply (tu_lt ke se rhs xs k Hk). apply nth_In. unfold order. rewrite nmo_len, (tu_len_d ke se rhs xs). lia. }
+    pose proof (clean_nimp _ (tu_clean ke se rhs xs Hc _ Hkth)) as E1. unfold nimp in E1. fold dissats in E1. rewrite E1.
+    destruct (negb _ && negb _) eqn:E2; [apply JS_unavail|].
+    set (C := firstn k order). set (Rr := skipn k order). set (ret := swap_in C dissats sats).
+    destruct (JS_mask xs (Msel ke se rhs xs k) (Msel_len ke se rhs xs k) HS HP) as [Ck G]. rewrite <- (tu_ret ke se rhs xs k Hk) in G, Ck.
+    fold dissats sats order C ret in G, Ck.
+    assert (Hchild : forall i, (i < length xs)%nat -> childS (nth i xs MTrue)).
+    { intros i Hi. rewrite Forall_forall in HS. apply HS, nth_In, Hi. }
+    (* a child whose satisfaction is Impossible-or-signed is dead for a party that sees none of its keys *)
+    assert (Hdead : forall i, (i < length xs)%nat -> weak ke se rhs xs i = false -> novis (ukeys (nth i xs MTrue)) -> satdead (nth i xs MTrue)).
+    { intros i Hi Hwk Hn w Hw Ht. destruct (Hchild i Hi) as [_ [_ [_ Js]]]. refine (js_ios _ _ _ Js _ Hn w Hw Ht).
+      unfold weak in Hwk. rewrite (tu_ns ke se rhs xs i Hi) in Hwk. unfold ios.
+      destruct (is_imp (s_stack (snd (usd (nth i xs MTrue))))); [left; reflexivity|]. destruct (s_has_sig (snd (usd (nth i xs MTrue)))); [right; reflexivity | discriminate]. }
+    constructor.
+    - (* Impossible-or-signed result: a chosen satisfaction is, hence fewer than k weak children *)
+      intros Hi Hn w Hw H.
+      assert (Hex : exists c, In c ret /\ ios c).
+      { unfold flatten_rev in Hi. destruct Hi as [Hi|Hi].
+        - destruct (fold_imp_inv se Habs_unit Hrel_unit ret (tu_ret_held ke A se f rhs xs k Hk HJ) TRIVIAL (held_const se _ _) Hi) as [H0|[c [Hc1 Hc2]]]; [cbn in H0; discriminate|].
+          exists c. split; [exact Hc1 | left; exact Hc2].
+        - destruct (fold_sig_inv ret TRIVIAL Hi) as [H0|[c [Hc1 Hc2]]]; [cbn in H0; discriminate|].
+          exists c. split; [exact Hc1 | right; exact Hc2]. }
+      destruct Hex as [c [Hcr Hic]]. apply (tu_ret_in ke se rhs xs k Hk) in Hcr. destruct Hcr as [i [Hi' [[HC ->]|[HR ->]]]].
+      + assert (Hwi : weak ke se rhs xs i = false).
+        { unfold weak. rewrite (tu_ns ke se rhs xs i Hi'). destruct Hic as [G1|G1]; rewrite G1; [reflexivity | apply Bool.andb_false_r]. }
+        apply (rthr_empty xs (map (weak ke se rhs xs) (seq 0 (length xs))) k w); [| |exact Hw | exact H].
+        * apply (Forall2_of_nth _ MTrue false); [rewrite map_length, seq_length; reflexivity|]. intros j Hj E.
+          rewrite (nth_map_d (weak ke se rhs xs) (seq 0 (length xs)) j 0%nat false) in E by (rewrite seq_length; exact Hj). rewrite seq_nth in E by exact Hj.
+          exact (Hdead j Hj E (novis_incl _ _ (tu_keys_in xs j Hj) Hn)).
+        * rewrite ctrue_map. exact (tu_few ke se rhs xs k Hk (weak ke se rhs xs) i HC Hwi (tu_weak_down ke se rhs xs k i HC Hwi)).
+      + exfalso. pose proof (tu_clean ke se rhs xs Hc i Hi') as Cl. rewrite (tu_nd ke se rhs xs i Hi') in Cl. exact (clean_not_ios _ Cl Hic).
+    - (* a stack: only the chosen children can be satisfied *)
+      intros l bs Hl Hf Hv w Hw H.
+      apply (js_stk _ _ _ G l bs Hl Hf Hv w Hw). apply rthr_masked; [|exact Hw | rewrite (Msel_ctrue ke se rhs xs k Hk); exact H].
+      apply (Forall2_of_nth _ MTrue false); [rewrite Msel_len; reflexivity|].
+      intros i Hi E. rewrite (Msel_nth ke se rhs xs k i Hi) in E. pose proof (sel_false ke se rhs xs k Hk i Hi E) as HR.
+      apply (Hdead i Hi (tu_rest_strong ke se rhs xs k Hk E2 i HR)).
+      intros k0 Hk0 Hin.
+      assert (Hin' : In (PhSig k0) l) by (apply Hv; [apply (tu_keys_in xs i Hi), Hk0 | exact Hin]).
+      destruct (tu_sig_chosen ke A se f rhs xs k Hk HJ Hc l k0 Hl Hin') as [c [Hcc Hkc]].
+      assert (Hne : c <> i) by (intros ->; exact (tu_C_notR ke se rhs xs k i Hcc HR)).
+      exact (tu_disj xs HP c i (tu_lt ke se rhs xs k Hk c (nmo_inC se k dissats sats c Hcc)) Hi Hne k0 Hkc Hk0).
+  Qed.
+
+  (* ================= multi / multi_a: through the third party's table ================= *)
+  Hypothesis Hse : forall kbs, e_sigok e kbs [] = false.
+
+  Lemma okw_incl w w' : incl w' w -> okw w -> okw w'.
+  Proof. intros Hi H k x Hk Hx. apply (H k x Hk), Hi, Hx. Qed.
+
+  Lemma sub_pick_v ks : incl ks Ktop -> forall S, SubV e (map (kb ke) ks) S -> okw S -> In S (pick_sigs Bv (length S) ks).
+  Proof.
+    induction ks as [|key r IH]; intros Hi S H Hw; cbn [map] in H.
+    - inversion H; subst. left. reflexivity.
+    - cbn [pick_sigs]. apply in_or_app. inversion H; subst.
+      + left. cbn [length]. assert (Hne : s <> []) by (intros ->; rewrite Hse in *; discriminate).
+        destruct (Hw key s (Hi key (or_introl eq_refl)) (or_introl eq_refl) Hne ltac:(assumption)) as [Ea Hv].
+        rewrite (Bv_sig key s Ea Hv). apply in_map. apply IH; [intros x Hx; apply Hi; right; exact Hx | assumption | exact (okw_tl _ _ Hw)].
+      + right. apply IH; [intros x Hx; apply Hi; right; exact Hx | assumption | exact Hw].
+  Qed.
+  Lemma emb_multi k ks w v : incl ks Ktop -> okw w -> Rcms e k (map (kb ke) ks) true w v ->
+    In w (map (fun sigs => rev sigs ++ [[]]) (pick_sigs Bv (N.to_nat k) ks)).
+  Proof.
+    intros Hi Hw [_ [sigs [-> [Hl [_ Hm]]]]].
+    apply (mm_sub_inv e), SubV_rev in Hm. rewrite rev_involutive in Hm.
+    apply in_map_iff. exists (rev sigs). split; [rewrite rev_involutive; reflexivity|].
+    rewrite <- Hl, <- (rev_length sigs). apply (sub_pick_v ks Hi); [exact Hm|].
+    apply (okw_incl _ _ (fun x Hx => in_or_app _ _ x (or_introl (proj2 (in_rev sigs x) Hx))) Hw).
+  Qed.
+  Lemma emb_multi_a ks : incl ks Ktop -> forall w j, okw w -> Rcsa e ke ks w j -> In w (pick_sigs_a Bv j ks).
+  Proof.
+    induction ks as [|key r IH]; intros Hi w j Hw H; cbn [Rcsa] in H.
+    - destruct H as [-> ->]. left. reflexivity.
+    - destruct H as [sg [w' [-> [_ H]]]]. cbn [pick_sigs_a]. apply in_or_app.
+      assert (Hi' : incl r Ktop) by (intros x Hx; apply Hi; right; exact Hx).
+      destruct H as [[-> H]|[Hne [Hok [j' [-> H]]]]].
+      + right. apply in_map. apply IH; [exact Hi' | exact (okw_tl _ _ Hw) | exact H].
+      + left. destruct (Hw key sg (Hi key (or_introl eq_refl)) (or_introl eq_refl) Hne Hok) as [Ea Hv].
+        rewrite (Bv_sig key sg Ea Hv). apply in_map. apply IH; [exact Hi' | exact (okw_tl _ _ Hw) | exact H].
+  Qed.
+  Lemma csa_novis ks : incl ks Ktop -> novis ks -> forall w j, okw w -> Rcsa e ke ks w j -> w = repeat [] (length ks).
+  Proof.
+    induction ks as [|key r IH]; intros Hi Hn w j Hw H; cbn [Rcsa] in H.
+    - destruct H as [-> _]. reflexivity.
+    - destruct H as [sg [w' [-> [_ H]]]].
+      assert (Hi' : incl r Ktop) by (intros x Hx; apply Hi; right; exact Hx).
+      assert (Hn' : novis r) by (intros x Hx; apply Hn; right; exact Hx).
+      destruct H as [[-> H]|[Hne [Hok _]]].
+      + cbn [length repeat]. f_equal. exact (IH Hi' Hn' w' j (okw_tl _ _ Hw) H).
+      + exfalso. destruct (Hw key sg (Hi key (or_introl eq_refl)) (or_introl eq_refl) Hne Hok) as [_ Hv]. exact (Hn key (or_introl eq_refl) Hv).
+  Qed.
+
+  Lemma ft_multi_gen (kN : N) ks : (1 <= kN)%N -> NoDup ks -> incl ks Ktop ->
+    finv ks (sd_multi se kN ks) (fun w => exists v, Rcms e kN (map (kb ke) ks) false w v)
+         (fun w => exists v, Rcms e kN (map (kb ke) ks) true w v) m_multi.
+  Proof.
+    intros Hk Hnd Hi. pose proof (ut_multi_gen ke A se f L kN ks Hk Hnd) as U.
+    constructor; cbn [m_multi m_dissat]; try discriminate.
+    - apply (JS_of_J ks _ _ _ (u_js _ _ _ _ _ _ _ _ U eq_refl)). intros w Hw [v H]. exact (emb_multi kN ks w v Hi Hw H).
+    - intros _. unfold sd_multi. cbv zeta.
+      assert (G : JS ks (mkSat (WStack (repeat PhPushZero (S (N.to_nat kN)))) false None None)
+                     (fun w => exists v, Rcms e kN (map (kb ke) ks) false w v)).
+      { apply (JS_const ks _ (repeat [] (S (N.to_nat kN)))); [apply fill_repeat_zero|].
+        intros w [v [_ [sigs [-> [_ [_ [_ ->]]]]]]]. rewrite rev_repeat. apply repeat_snoc. }
+      destruct (Nat.ltb _ _); exact G.
+  Qed.
+  Lemma ft_multi_a_gen (kN : N) ks : (1 <= kN)%N -> NoDup ks -> incl ks Ktop ->
+    finv ks (sd_multi_a se kN ks) (fun w => exists j, Rcsa e ke ks w j /\ false = N.eqb (N.of_nat j) kN)
+         (fun w => exists j, Rcsa e ke ks w j /\ true = N.eqb (N.of_nat j) kN) m_multi_a.
+  Proof.
+    intros Hk Hnd Hi. pose proof (ut_multi_a_gen ke A se f L kN ks Hk Hnd) as U.
+    constructor; cbn [m_multi_a m_dissat]; try discriminate.
+    - apply (JS_of_J ks _ _ _ (u_js _ _ _ _ _ _ _ _ U eq_refl)). intros w Hw [j [H Ej]].
+      symmetry in Ej. apply N.eqb_eq in Ej. subst kN. rewrite Nat2N.id. exact (emb_multi_a ks Hi w j Hw H).
+    - intros _. unfold sd_multi_a. cbv zeta.
+      assert (G : JS ks (mkSat (WStack (repeat PhPushZero (length ks))) false None None)
+                     (fun w => exists j, Rcsa e ke ks w j /\ false = N.eqb (N.of_nat j) kN)).
+      { constructor; [intros [H|H]; discriminate|].
+        intros l bs Hl Hf Hv w Hw [j [H _]]. cbn in Hl. inversion Hl; subst l. rewrite fill_repeat_zero in Hf. inversion Hf; subst bs.
+        rewrite rev_repeat. apply (csa_novis ks Hi (vis_nosig_novis ks _ Hv (nosig_repeat (length ks))) w j Hw H). }
+      destruct (Nat.ltb _ _); exact G.
   Qed.
 End Script.
